@@ -13,7 +13,8 @@ enters the real code — the iteration order of a Go map — and the six API ent
 
 `reflect.Value.MapKeys` returns the keys in an arbitrary order. The repaired code sorts them
 (`values.SortedMapKeys`) before iterating or converting to an array. Sorting makes the result
-independent of that arbitrary order: -/
+independent of that arbitrary order (here for string keys; `Proofs/MapOrder.lean` for booleans, numbers
+of every type and strings, with the comparator of `values/sort.go` itself): -/
 
 /-- Sorting with a transitive, total order that is antisymmetric on the elements present gives the
     same list for every permutation of the input. -/
@@ -55,9 +56,10 @@ theorem map_order_independent (kvs kvs' : List (Bytes × GoVal)) (hperm : kvs.Pe
     simp only [entryLe, decide_eq_true_eq] at hab hba
     exact hdistinct a b ha hb (List.le_antisymm hab hba)
 
-/-- a list that is already in key order is visited as it is (the line protocol keeps map entries
-    in this canonical order, so the model's `loopItems` on a map is `sortedEntries` of any
-    permutation of it) -/
+/-- a list that is already in key order is left as it is. (This section is the earlier statement for
+    string keys and `mergeSort`; the model's `loopItems` and `Convert` now call `MapOrder.sortedEntries`,
+    the transcription of `values.SortedMapKeys` for keys of every kind: `Proofs/MapOrder.lean` and the
+    last sections of this file.) -/
 theorem sortedEntries_of_sorted (kvs : List (Bytes × GoVal)) (h : kvs.Pairwise (fun a b => entryLe a b = true)) :
     sortedEntries kvs = kvs := List.mergeSort_of_pairwise h
 
